@@ -90,20 +90,34 @@ def check(ctx, run):
         run.ob("R1", "%s sets %s" % (fn_, fld), f.site, got == (val if val is not None else 5), witness=got)
 
     # ---------------- R2 ----------------------------------------------------
+    # the mode switches, judged by the period the NEXT record is stamped with: detectors are built by the constructor and
+    # the public switches themselves (whatever private state holds the mode), then one allocation is folded
+    from .shared import detector_state
+    from .C04 import stamp_of
+    START = {"disabled": [], "enabled": [("enable", [])], "checking": [("startChecking", [])]}
     for fn_, val, extra in (("startChecking", CHECKING, True), ("stopChecking", ENABLED, False), ("enable", ENABLED, False), ("disable", DISABLED, False)):
         f = prog.fn(DET + "::" + fn_)
         run.analysed(f)
-        cleared = []
-        ok = True
-        for start in (CHECKING, ENABLED, DISABLED):
-            ev = Evaluator(prog, f, env={"current_period_": start}, calls={"MemoryLeakOutputStringBuffer::clear": lambda *a_: (cleared.append(1), 0)[1]})
+        ok, wit = True, {}
+        for sname, steps_ in START.items():
+            cleared = []
             try:
-                ev.run_blocks(f.entry, max_steps=100)
-                ok = ok and ev.env.get("current_period_") == val
+                from .common import object_state
+                st = object_state(prog, DET, ["MemoryLeakFailure *"], [55], steps=steps_ + [(fn_, [])],
+                                  hooks={"SimpleMutex::SimpleMutex": lambda *a_: 0, "MemoryLeakOutputStringBuffer::clear": lambda *a_: (cleared.append(1), 0)[1]},
+                                  inline={g.qn for g in prog.functions.values() if g.qn.startswith(DET + "::")})
+                got = stamp_of(prog, st).get("period_")
             except Unknown as u:
-                ok = False
-        ok = ok and (not extra or len(cleared) == 3)
-        run.ob("R2", "%s folded from every period: the current period becomes %s%s" % (fn_, [k for k, v in per.items() if v == val][0].replace("mem_leak_period_", ""), " and the report buffer is cleared" if extra else ""), f.site, ok)
+                got = "unknown: %s" % u
+            want_clears = (1 if extra else 0) + (1 if sname == "checking" else 0)
+            wit[sname] = {"next record stamped": got, "buffer cleared": len(cleared)}
+            ok = ok and got == val and (len(cleared) == want_clears)
+        run.ob("R2", "%s folded from every period: the next record is stamped %s%s" % (fn_, [k for k, v in per.items() if v == val][0].replace("mem_leak_period_", ""), " and the report buffer is cleared" if extra else ""), f.site, ok, witness=wit)
+    try:
+        got = stamp_of(prog, detector_state(prog, [])).get("period_")
+    except Unknown as u:
+        got = "unknown: %s" % u
+    run.ob("R2", "a new detector starts disabled", f.site, got == DISABLED, witness={"a record of a new detector is stamped": got})
     mk = prog.fn(DET + "::markCheckingPeriodLeaksAsNonCheckingPeriod")
     run.analysed(mk)
     badm = None
@@ -146,15 +160,6 @@ def check(ctx, run):
     # the verdict counts through getTotalLeaks: table level (every bucket asked with the period) and list level
     table_walk_rules(prog, run, "R1", "R1", only=("getTotalLeaks",))
     list_total_rule(prog, run, "R1")
-    ct = [f for f in prog.methods_of(DET) if f.kind == "ctor"][0]
-    e1 = Evaluator(prog, ct, env={q["name"]: 7000 + i_ for i_, q in enumerate(ct.params)}, calls={"SimpleMutex::SimpleMutex": lambda *a_: 0})
-    e1.objects = True
-    try:
-        e1.run_blocks(ct.entry, max_steps=400)
-    except Unknown:
-        pass
-    a = {k_: v for k_, v in e1.env.items() if k_ in ("current_period_", "doAllocationTypeChecking_", "allocationSequenceNumber_", "current_allocation_stage_")}
-    run.ob("R2", "a new detector starts disabled", ct.site, a.get("current_period_") == DISABLED, witness={k_: str(v) for k_, v in a.items()})
 
     # ---------------- R3 ----------------------------------------------------
     ro = prog.fn("UtestShell::runOneTestInCurrentProcess")
